@@ -43,6 +43,12 @@ def testCell (env : Env) (c : Cmp) (r : Val) : Cell → Bool
     | .ok b => b
     | .error _ => false
 
+/-- the comparator's verdict on one validated left cell against the validated right cell -/
+def pairTest (env : Env) (c : Cmp) (lc rc : Cell) : Bool :=
+  match rc with
+  | .val r0 => testCell env c r0 lc
+  | .empty => false
+
 mutual
 /-- the values a chain selects from `cur` -/
 def den (env : Env) : List N → Val → Val → List Val
@@ -92,7 +98,7 @@ def den (env : Env) : List N → Val → Val → List Val
     | [] => []
     | r0 :: rs =>
       let all := r0 :: rs
-      let args := if chainVg param then all else (match r0 with | .arr xs => xs | _ => all)
+      let args := aggArgs (chainVg param) r0 all
       match env.afn name with
       | some f => (match f args with
         | some r => den env rest root r
@@ -117,9 +123,7 @@ def semQ (env : Env) : Q → Val → List Val → List Bool
     let lf := L.any cellNonEmpty
     let rf := R.any cellNonEmpty
     if lf && rf then
-      List.zipWith (fun lc rc => match rc with
-        | .val r0 => testCell env c r0 lc
-        | .empty => false) L R
+      List.zipWith (pairTest env c) L R
     else if !lf && !rf && c == .deepEq then ms.map (fun _ => true)
     else ms.map (fun _ => false)
 end
